@@ -321,6 +321,35 @@ def check_ls_structure(ctx):
             okp = U(fv.expand(ls[0].value, ls[0], stop=(dn, axn, vol_names[0]))) == f"({vol_names[0]} / len({dn})) ** (1 / len({axn}))"
     ctx.decide(okp and okl, "VOLUME", LS + ":per-droplet", (fi, ls[0]) if ls else fi, "length = (box volume / number of droplets located in the field) ** (1 / number of free axes) (options forwarded to locate_droplets)",
                "the droplet-counting length scale is not (box volume / len(locate_droplets(field, **kwargs))) ** (1 / len(axes))")
+    # the effective threshold of the droplet count must carry the field's amplitude unit
+    if loc:
+        c = loc[0]
+        explicit = kwarg(c, "threshold")
+        callee = m.func(fv.callee(c)) if (fv.callee(c) or "") in m.functions else None
+        tsite = LS + ":locate_droplets.threshold<-default"
+        if explicit is None and callee is not None:
+            d = callee.default_of("threshold")
+            setd = [x for x in fv.calls() if isinstance(x.func, ast.Attribute) and x.func.attr == "setdefault" and U(x.func.value) == "kwargs" and x.args
+                    and isinstance(x.args[0], ast.Constant) and x.args[0].value == "threshold" and fv.dominates(si.statement(x), si.statement(c))]
+            if setd:
+                d = setd[0].args[1] if len(setd[0].args) > 1 else None
+            if isinstance(d, ast.Constant) and isinstance(d.value, str):
+                ctx.hold("DIM", tsite, (fi, c), f"without an explicit option the droplets are counted with the relative threshold rule {d.value!r} (scales with the field)")
+            elif isinstance(d, ast.Constant) and isinstance(d.value, (int, float)) and d.value != 0:
+                ctx.violate("DIM", tsite, (fi, c), f"without an explicit option the droplets are counted with locate_droplets' default threshold {d.value!r}, an absolute intensity "
+                            "(unit amplitude⁰ compared with the field, unit amplitude¹): multiplying the field by a constant changes the mask and thereby the count "
+                            "(e.g. 0.5 + 0.5·sin on 64 cells: 16.0; the same field × 0.4: no droplet, result inf)")
+            elif isinstance(d, ast.Constant) and d.value == 0:
+                ctx.hold("DIM", tsite, (fi, c), "default threshold 0 is invariant under positive rescaling of the field")
+            else:
+                ctx.undecided("DIM", tsite, (fi, c), "default threshold of the droplet count not recognised")
+        elif explicit is not None:
+            if isinstance(explicit, ast.Constant) and isinstance(explicit.value, str):
+                ctx.hold("DIM", tsite, (fi, c), f"droplets are counted with the relative threshold rule {explicit.value!r}")
+            elif isinstance(explicit, ast.Constant) and explicit.value != 0:
+                ctx.violate("DIM", tsite, (fi, c), f"droplets are counted with the absolute threshold {U(explicit)}: the count changes when the field is multiplied by a constant")
+            else:
+                ctx.undecided("DIM", tsite, (fi, c), f"threshold `{U(explicit)}` not classified")
     # peak: maximum excluding k = 0, bracket around it, 2π/k
     me = [s for s in fv.statements() if isinstance(s, ast.Assign) and U(s.targets[0]) == "max_est"]
     okm = len(me) == 1 and U(me[0].value) == "k_mag[1 + np.argmax(sf[1:])]"
